@@ -49,6 +49,13 @@ class BaseCurve(Intface_BaseCurve):
         if self.weights is not None or other.weights is not None:
             numa, dena = self.fraction()
             numb, denb = other.fraction()
+            # Weights are homogeneous: compare at the scale of unit weights
+            if self.weights is not None:
+                scale = max(abs(weight) for weight in self.weights)
+                numa, dena = numa / scale, dena / scale
+            if other.weights is not None:
+                scale = max(abs(weight) for weight in other.weights)
+                numb, denb = numb / scale, denb / scale
             return numa * denb == numb * dena
         newknotvec = self.knotvector | other.knotvector
         selfcopy = copy(self)
